@@ -289,6 +289,20 @@ def r3(ctx, R):
         if isinstance(st, ast.If) and st.body and isinstance(st.body[-1], ast.Return) and not st.orelse:
             early.append(unparse(st.test))
     only_default = any("len(" in t and "source_dirs" in t for t in early) and any("root_path" in t and "source_dirs" in t for t in early)
+    if not only_default and not early:
+        # the guard may live with the callers: every call site is dominated by both conditions
+        sites = []
+        for g in ctx.m.funcs.values():
+            for c in calls_in(g.node):
+                if ctx.m.enclosing_func(c) is g and adder.qual in ctx.r.resolve_call(g, c)[1]:
+                    sites.append((g, c))
+        def guarded(g, c):
+            conds = [fa[1] for fa in (ctx.facts(g, interproc=False).at(c) or ()) if fa[0] == "cond" and fa[2] is True]
+            one = any(t.replace(" ", "") in ("len(self.source_dirs)==1", "1==len(self.source_dirs)") for t in conds)
+            root = any("root_path" in t and " in " in t and t.endswith("source_dirs") and " not in " not in t for t in conds)
+            return one and root
+        if sites and all(guarded(g, c) for g, c in sites):
+            only_default = True
     if only_default:
         R.ok("C18.R3", adder.short, "recursive walk only for the default configuration", loc(adder, walkc), "dominated by the two early returns")
     else:
